@@ -51,11 +51,18 @@ class LogUniformPrior(Prior):
         lower_limit = float(lower_limit)
         upper_limit = float(upper_limit)
 
+        ratio = upper_limit / lower_limit
+        if np.isfinite(ratio):
+            scale = np.log10(ratio)
+        else:
+            # the ratio overflows for ranges above ~308 decades or a subnormal lower limit
+            scale = np.log10(upper_limit) - np.log10(lower_limit)
+
         message = TransformedMessage(
             UniformNormalMessage,
             LinearShiftTransform(
                 shift=np.log10(lower_limit),
-                scale=np.log10(upper_limit / lower_limit),
+                scale=scale,
             ),
             log_10_transform,
         )
